@@ -10,6 +10,7 @@ import (
 	"context"
 	"errors"
 	"fmt"
+	"math/rand/v2"
 	"net"
 	"net/http"
 	"net/url"
@@ -24,6 +25,7 @@ import (
 
 	"github.com/transparency-dev/witness/internal/config"
 	"github.com/transparency-dev/witness/internal/persistence/inmemory"
+	"github.com/transparency-dev/witness/internal/verif/kit/asmunits"
 	"github.com/transparency-dev/witness/internal/verif/kit/ev"
 	"github.com/transparency-dev/witness/internal/verif/kit/refnote"
 	"github.com/transparency-dev/witness/internal/verif/kit/seams"
@@ -122,6 +124,12 @@ func main() {
 			run.Inconclusive("child output unreadable: " + err.Error())
 		}
 	}
+	// the witness map and the feeder list must still describe the same logs when the service is started on a
+	// store that already holds checkpoints (generated configurations: the shipped logs' keys cannot be signed with)
+	run.Floor("assembled_progress_episodes", 5)
+	run.Units("asm_restart", run.Pick(6, 24), 6, func(unit int64, r *rand.Rand) {
+		asmunits.Progress(run, unit, r, "restart_with_stored_state")
+	})
 }
 
 func tailOf(s string, n int) string {
